@@ -1,5 +1,6 @@
 # -*- coding: utf-8 -*-
 import numpy
+import scipy.linalg
 from ..liouvillespace.rates.ratematrix import RateMatrix
 
 class PopulationPropagator:
@@ -145,14 +146,10 @@ class PopulationPropagator:
             # initial condition
             U0 = numpy.eye(N)
             
-            # diagonalization of the rate matrix
-            Kd, SS = numpy.linalg.eig(self.KK)
-            S1 = numpy.linalg.inv(SS)
-
-            
-            # calculating exp(KK*step)
-            expKd_step = numpy.dot(SS,numpy.dot(
-                    numpy.diag(numpy.exp(Kd*timeaxis.step)),S1))
+            # calculating exp(KK*step); the matrix exponential is used 
+            # directly because a rate matrix need not be diagonalizable
+            KKm = numpy.array(self.KK, dtype=numpy.float64)
+            expKd_step = scipy.linalg.expm(KKm*timeaxis.step)
 
             #
             # If the starts of the time axes do not coincide, and the
@@ -173,8 +170,7 @@ class PopulationPropagator:
                 # otherwise new exp(KK*dt) has to be calculated and applied
                 else:
                     dt = timeaxis.start - self.timeAxis.start
-                    expKd_dt = numpy.dot(SS,numpy.dot(
-                            numpy.diag(numpy.exp(Kd*dt)),S1))
+                    expKd_dt = scipy.linalg.expm(KKm*dt)
                     U0 = numpy.dot(expKd_dt,U0)
                     
             # initial condition at the start of the submitted timeaxis            
